@@ -6,6 +6,7 @@ import (
 	"net/url"
 	"strings"
 	"testing"
+	"unicode/utf8"
 
 	"github.com/hashicorp/go-slug/sourceaddrs"
 	"pgregory.net/rapid"
@@ -299,6 +300,27 @@ func TestPropResolved(t *testing.T) {
 			rel = strings.Repeat("../", ups) + addrgen.GenSubPath(t, "rel", 30)
 		}
 		return ResolveCase{Base: base, Rel: rel}
+	})
+}
+
+// FuzzPolicy: coverage-guided strings; whatever any parser accepts as a remote
+// address must satisfy the transport policy.
+func FuzzPolicy(f *testing.F) {
+	for _, s := range []string{"git::https://example.com/repo.git//sub?ref=main", "git::ssh://git@example.com/repo.git", "https://example.com/pkg.tgz?archive=tgz",
+		"https://example.com/dl?archive=tgz&checksum=1", "github.com/hashicorp/go-slug//sub", "gitlab.com/a/b", "git::http://example.com/r.git", "http::https://example.com/a.zip",
+		"git::https://user:pw@example.com/r.git", "https://example.com/a.tgz#frag", "git::https:opaque", "GIT::HTTPS://EXAMPLE.com/R.git", "https://example.com/a?archive=&archive=zip",
+		"git::file:///tmp/r.git", "s3::https://bucket/key.tgz", "git::https://example.com///r.git"} {
+		f.Add(s)
+	}
+	f.Fuzz(func(t *testing.T, s string) {
+		if !utf8.ValidString(s) {
+			t.Skip("the property speaks of valid UTF-8 strings")
+		}
+		c := StringCase{S: s, Class: "arbitrary"}
+		if err := subStrings.Run(c); err != nil {
+			ev.FuzzFail("strings", c, err)
+			t.Fatalf("%v", err)
+		}
 	})
 }
 
